@@ -180,6 +180,15 @@ static int matrix_addrow (
 
 /* argument checks shared by the add routines, made before anything is
  * modified: every index inside [0,limit), the name (if given) not in use */
+static int cmp_int (
+	const void *a,
+	const void *b)
+{
+	int x = *(const int *) a, y = *(const int *) b;
+
+	return (x > y) - (x < y);
+}
+
 static int check_new_line (
 	ILLsymboltab * tab,
 	const char *name,
@@ -188,6 +197,7 @@ static int check_new_line (
 	int limit)
 {
 	int i;
+	int *sorted = 0;
 
 	for (i = 0; i < cnt; i++)
 	{
@@ -196,6 +206,26 @@ static int check_new_line (
 			QSlog("index %d out of range [0,%d)", ind[i], limit);
 			return 1;
 		}
+	}
+	if (cnt > 1)
+	{
+		/* an index listed twice would be stored as two entries of one matrix
+		 * cell, and the queries would then contradict each other */
+		sorted = (int *) malloc (sizeof (int) * (size_t) cnt);
+		if (!sorted)
+			return 1;
+		memcpy (sorted, ind, sizeof (int) * (size_t) cnt);
+		qsort (sorted, (size_t) cnt, sizeof (int), cmp_int);
+		for (i = 1; i < cnt; i++)
+		{
+			if (sorted[i] == sorted[i - 1])
+			{
+				QSlog("index %d is listed twice", sorted[i]);
+				free (sorted);
+				return 1;
+			}
+		}
+		free (sorted);
 	}
 	if (name && tab->tablesize > 0 && ILLsymboltab_contains (tab, name))
 	{
